@@ -340,6 +340,10 @@ func (x *Exec) finish(fd *ast.FuncDecl) {
 		if containsObj(v) {
 			continue
 		}
+		if env.oldNames == nil {
+			env.oldNames = map[string]Val{}
+		}
+		env.oldNames[pv.Name()] = v
 		if ct.Modifies[pv.Name()] {
 			env.names[pv.Name()] = final.vars[pv]
 			continue
